@@ -9,6 +9,11 @@ CHECKS = {
    note="Trusted: Coq kernel, extraction (ExtrOcamlBasic), OCaml driver, Go harness, python comparison. Modelled not verified: float64 hardware path of Multiply/Divide/Rescale is covered by the correspondence inside the 2^52 domain; AmountFromFloat64/Float64/formatter not covered.",
    technique="Rocq theorems over a Gallina model + differential correspondence (extracted OCaml vs Go)",
    design="7 (C05)"),
+ "C11": dict(
+   text="Theorems in Rocq (rocq/Props/C11.v, 17 statements, axiom-free): the derivative regex matcher decides the denoted language; the fuelled JSON-Schema validator (draft 2020-12 subset the shipped schemas use: $ref/$defs/$id, type, properties, patternProperties, additionalProperties, required, items, oneOf, anyOf, allOf, const, enum, pattern, format date/uuid, minLength, maxLength) is sound and complete for the relational specification conforms/violates; over the files under data/schemas as regenerated on every run (Gen/Schemas.v, Gen/SchemasJson.v): every keyword has the type the meta-schema requires except the recorded finding (bill/delivery.json enum), every $ref resolves to a shipped definition, every $id is the file path, every pattern is in the modelled regex subset, the translated schemas carry exactly the raw files' patterns and references, and the key/code rules of the schema are literally cbc.KeyPattern/cbc.CodePattern and their length limits. Document-level conformance (Go accepted => schema accepts) for all valid documents is established by sweep, not theorem (partial): every example output, generated invoices and field-level mutations of the examples run through gobl.Parse -> Envelop/Calculate -> Validate; every accepted serialisation is validated against its published schema by the extracted validator and by python jsonschema over the same files; the two validators are also compared on rejected documents, and the shipped patterns on generated strings against python re and Go regexp.",
+   note="Trusted: Coq kernel incl. vm_compute, extraction, OCaml driver, translator harness/gen_schemas.go (JSON text -> terms, ECMA-subset regex parser; cross-checked), python jsonschema 4.26 with FormatChecker (date, uuid checked; uri annotation) as independent reading, Go harness. Partial: conformance of all valid documents is a sweep (quick ~3k documents, thorough ~200k), it would need a model of every Validate method. Divergences stated: python rejects year 0000 (RFC 3339 allows it) - not compared; $ is end of text (ECMA/Go), strings ending in a newline are not generated. Recorded findings: findings/C11.json (delivery enum, MX tax codes, $regime unchecked, unvalidated Code/Key fields, null list elements, nil rates slice).",
+   technique="Rocq theorems over a Gallina model of JSON Schema validation + generated-data theorems (vm_compute of proved-sound checkers) + differential sweep (extracted OCaml validator vs python jsonschema vs Go acceptance)",
+   design="7 (C11)"),
 }
 NOT_APPLICABLE = []
 
